@@ -175,7 +175,11 @@ func genC13(c *Cfg, emit func([]string)) {
 				if c.Rng.Intn(15) == 0 {
 					id = "nope"
 				}
-				h = append(h, fmt.Sprintf("unlock %s %s %s %s %s %s", l.kind, signer, id, u, l.token, amt))
+				reqTok := l.token
+				if c.Rng.Intn(7) == 0 {
+					reqTok = pick(tokens...) // the request names another token than the lock's: the lock's token counts
+				}
+				h = append(h, fmt.Sprintf("unlock %s %s %s %s %s %s", l.kind, signer, id, u, reqTok, amt))
 				if a, err := strconv.Atoi(strings.TrimPrefix(amt, "+")); err == nil && a > 0 && a <= l.cur && signer == "admin" && u == l.user && id == l.id {
 					l.cur -= a
 				}
